@@ -1,0 +1,89 @@
+//go:build verif
+
+package rtpconn
+
+// Second part of the exports for the `sig` family of drivers: looking at
+// what is QUEUED for a client without consuming it, so that a driver can
+// check that a queued message or action is a value (it must not change while
+// it waits: in the server it is read later by another goroutine).  Add-only.
+// Only for single-threaded harnesses (the queue is rotated in place).
+
+import (
+	"encoding/json"
+	"fmt"
+)
+
+func verifRenderWrite(m interface{}) []byte {
+	switch m := m.(type) {
+	case clientMessage:
+		b, err := json.Marshal(m)
+		if err != nil {
+			return []byte(`{"type":"__marshal_error__"}`)
+		}
+		return b
+	case []byte:
+		return append([]byte{}, m...)
+	case closeMessage:
+		return []byte(`{"type":"__close__"}`)
+	}
+	return []byte(`{"type":"__unexpected__"}`)
+}
+
+// PeekWrites returns the JSON form, as of now, of every message waiting in
+// the write channel, in order, without removing any.
+func (v *VerifClient) PeekWrites() [][]byte {
+	n := len(v.c.writeCh)
+	out := make([][]byte, 0, n)
+	for i := 0; i < n; i++ {
+		select {
+		case m := <-v.c.writeCh:
+			out = append(out, verifRenderWrite(m))
+			v.c.writeCh <- m
+		default:
+			return out
+		}
+	}
+	return out
+}
+
+// VerifQueuedAction is the printable form of one queued action.  Core holds
+// everything but the permission list of a pushClientAction, which is
+// reported separately in Perms.
+type VerifQueuedAction struct {
+	Core  string
+	Perms string
+}
+
+// PeekActions returns the printable form, as of now, of every action waiting
+// in the action queue, in order, without removing any.
+func (v *VerifClient) PeekActions() []VerifQueuedAction {
+	q := v.c.actions.Get()
+	out := make([]VerifQueuedAction, 0, len(q))
+	for _, a := range q {
+		var r VerifQueuedAction
+		switch a := a.(type) {
+		case pushClientAction:
+			d, err := json.Marshal(a.data)
+			if err != nil {
+				d = []byte("?")
+			}
+			r.Core = fmt.Sprintf("pushClient %q %q %q %q data=%s", a.group, a.kind, a.id, a.username, d)
+			r.Perms = fmt.Sprintf("%q", a.permissions)
+		case joinedAction:
+			r.Core = fmt.Sprintf("joined %q %q", a.group, a.kind)
+		case changePermissionsAction:
+			r.Core = fmt.Sprintf("changePermissions %q", a.kind)
+		case kickAction:
+			u := "<nil>"
+			if a.username != nil {
+				u = *a.username
+			}
+			r.Core = fmt.Sprintf("kick %q %q %q", a.id, u, a.message)
+		default:
+			r.Core = fmt.Sprintf("%T", a)
+		}
+		out = append(out, r)
+		v.c.actions.Put(a)
+	}
+	return out
+}
